@@ -31,8 +31,8 @@ type FakeRegistry struct {
 	// NoReferrersAPI: the registry predates the referrers API (clients fall back to the referrers tag schema).
 	// FailDelete: it also refuses to delete manifests (a client cannot remove the index it has just replaced).
 	NoReferrersAPI, FailDelete bool
-	srv       *httptest.Server
-	tr        *http.Transport
+	srv                        *httptest.Server
+	tr                         *http.Transport
 }
 
 type fakeManifest struct {
